@@ -16,7 +16,7 @@ from ..oracles import graphs as G
 from ..oracles import stats as S
 from ..workloads import gmat, callforms
 
-TECHNIQUE = "runtime sample monitor on NormalDistribution/LGANM/ANM.sample: shape, Wishart-variance z-scores with three-fold escalation, exact point-mass columns, null-space residuals, per-marginal DKW band, lag-1 and repeated-row detection; linear ANM vs LGANM law"
+TECHNIQUE = "runtime sample monitor on NormalDistribution/LGANM/ANM.sample: shape, Wishart-variance z-scores with three-fold escalation, exact point-mass columns, null-space residuals, per-marginal DKW band, lag-1 and repeated-row detection; pooled standardised moment errors over hundreds of independent replicates; linear ANM vs LGANM law"
 LEVEL_TEXT = ("Samples of size 4e4 (quick) / 4e5 (thorough) from random LGANMs (signed weights, unequal variances, all three "
               "intervention kinds incl. point masses on non-source nodes), NormalDistributions with full-rank, rank-deficient and "
               "diagonal covariances, and linear ANMs with the library's normal noise paired with their LGANM are monitored: shape, "
